@@ -152,7 +152,16 @@ func oracleC07(f *sessionFam, w *World, res *Result) []Violation {
 				l.add("v3-every-ping-answered", "", fmt.Sprintf("%s [%s]: client ping at %v got no pong", a, ctx, hs[pendingPong].t))
 			}
 			dl := last + pi + pt
-			if closeEv != nil && closeEv.S == "ping timeout" {
+			// excluded by the statement: an upgrade completing between the last ping and its deadline cancels the deadline
+			upgradedSince := false
+			for _, h := range hs {
+				if h.kind == "upgrade" && h.t >= last && h.t <= dl {
+					upgradedSince = true
+				}
+			}
+			if upgradedSince {
+				w.probe("v3_deadline_cancelled_by_upgrade")
+			} else if closeEv != nil && closeEv.S == "ping timeout" {
 				if closeEv.T != dl {
 					l.add("v3-deadline", "", fmt.Sprintf("%s [%s]: ping timeout at %v, expected exactly %v (last ping/open %v + %v + %v)", a, ctx, closeEv.T, dl, last, pi, pt))
 				}
@@ -178,8 +187,10 @@ func oracleC07(f *sessionFam, w *World, res *Result) []Violation {
 					if n.S != "transport error" {
 						l.add("wrong-direction-closes", n.S, fmt.Sprintf("%s [%s]: wrong-direction heartbeat closed the session with %q", a, ctx, n.S))
 					}
-				} else if n.Kind == "heartbeat" || n.Kind == "packetCreate" {
-					l.add("wrong-direction-no-other-effect", n.Kind, fmt.Sprintf("%s [%s]: wrong-direction heartbeat caused a %s event", a, ctx, n.Kind))
+				} else if n.Kind == "heartbeat" || (n.Kind == "packetCreate" && (strings.HasPrefix(n.S, "ping|") || strings.HasPrefix(n.S, "pong|"))) {
+					l.add("wrong-direction-no-other-effect", n.Kind, fmt.Sprintf("%s [%s]: wrong-direction heartbeat caused a %s event (%s)", a, ctx, n.Kind, n.S))
+				} else {
+					continue // an unrelated event of the session (application send, flush ...)
 				}
 				break
 			}
